@@ -34,6 +34,7 @@ package datalog
 //@ ensures default_hit: (exists j int :: 0 <= j && j < 28 && DEFAULT_SYMBOLS[j] == s) ==> result < 28 && *t == old(*t)
 //@ ensures prefix_kept: len(*t) >= old(len(*t)) && (forall j int :: 0 <= j && j < old(len(*t)) ==> (*t)[j] == old((*t)[j]))
 //@ ensures grows_by_at_most_one: len(*t) <= old(len(*t)) + 1
+//@ ensures same_or_fresh_array: tableGrown(*t, old(*t))
 //@ ensures fresh_symbol: (forall j int :: 0 <= j && j < 28 ==> DEFAULT_SYMBOLS[j] != s) && (forall j int :: 0 <= j && j < old(len(*t)) ==> old((*t)[j]) != s) ==> result == 1024 + old(len(*t)) && len(*t) == old(len(*t)) + 1
 //@ ensures known_symbol: (exists j int :: 0 <= j && j < old(len(*t)) && old((*t)[j]) == s) ==> *t == old(*t)
 
@@ -58,6 +59,7 @@ package datalog
 //@ requires s != nil
 //@ modifies *s, spare(*s)
 //@ ensures full: old(len(*s)) >= 1000 ==> err != nil && *s == old(*s)
+//@ ensures same_or_fresh_array: arr(*s) == old(arr(*s)) || fresh(arr(*s))
 //@ ensures pushed: old(len(*s)) < 1000 ==> err == nil && len(*s) == old(len(*s)) + 1 && (*s)[len(*s)-1] == v && (forall j int :: 0 <= j && j < old(len(*s)) ==> (*s)[j] == old((*s)[j]))
 
 //@ func (s *stack) Pop() (v Term, err error)
@@ -74,18 +76,22 @@ package datalog
 //@ serves C06 C10
 //@ requires value != nil
 //@ modifies nothing
+//@ ensures wf: err == nil ==> termWF(res)
 //@ ensures not: value is Bool ==> err == nil && res == Bool(!value.(Bool))
 //@ ensures illtyped: !(value is Bool) ==> err != nil && res == nil
 
 //@ func (Parens) Eval(value Term, _ *SymbolTable) (res Term, err error)
 //@ serves C06 C10
+//@ requires termWF(value)
 //@ modifies nothing
+//@ ensures wf: err == nil ==> termWF(res)
 //@ ensures identity: err == nil && res == value
 
 //@ func (Length) Eval(value Term, symbols *SymbolTable) (res Term, err error)
 //@ serves C06 C10
 //@ requires value != nil && symbols != nil
 //@ modifies nothing
+//@ ensures wf: err == nil ==> termWF(res)
 //@ ensures str: value is String && symValid(symbols, value.(String)) ==> err == nil && res == Integer(len(symStr(symbols, value.(String))))
 //@ ensures bytes: value is Bytes ==> err == nil && res == Integer(len(value.(Bytes)))
 //@ ensures set: value is Set ==> err == nil && res == Integer(len(value.(Set)))
@@ -95,6 +101,7 @@ package datalog
 //@ serves C06 C10
 //@ requires left != nil && right != nil
 //@ modifies nothing
+//@ ensures wf: err == nil ==> termWF(res)
 //@ ensures ints: left is Integer && right is Integer ==> err == nil && res == Bool(left.(Integer) < right.(Integer))
 //@ ensures dates: left is Date && right is Date ==> err == nil && res == Bool(left.(Date) < right.(Date))
 //@ ensures illtyped: !(left is Integer && right is Integer) && !(left is Date && right is Date) ==> err != nil && res == nil
@@ -103,6 +110,7 @@ package datalog
 //@ serves C06 C10
 //@ requires left != nil && right != nil
 //@ modifies nothing
+//@ ensures wf: err == nil ==> termWF(res)
 //@ ensures ints: left is Integer && right is Integer ==> err == nil && res == Bool(left.(Integer) <= right.(Integer))
 //@ ensures dates: left is Date && right is Date ==> err == nil && res == Bool(left.(Date) <= right.(Date))
 //@ ensures illtyped: !(left is Integer && right is Integer) && !(left is Date && right is Date) ==> err != nil && res == nil
@@ -111,6 +119,7 @@ package datalog
 //@ serves C06 C10
 //@ requires left != nil && right != nil
 //@ modifies nothing
+//@ ensures wf: err == nil ==> termWF(res)
 //@ ensures ints: left is Integer && right is Integer ==> err == nil && res == Bool(left.(Integer) > right.(Integer))
 //@ ensures dates: left is Date && right is Date ==> err == nil && res == Bool(left.(Date) > right.(Date))
 //@ ensures illtyped: !(left is Integer && right is Integer) && !(left is Date && right is Date) ==> err != nil && res == nil
@@ -119,6 +128,7 @@ package datalog
 //@ serves C06 C10
 //@ requires left != nil && right != nil
 //@ modifies nothing
+//@ ensures wf: err == nil ==> termWF(res)
 //@ ensures ints: left is Integer && right is Integer ==> err == nil && res == Bool(left.(Integer) >= right.(Integer))
 //@ ensures dates: left is Date && right is Date ==> err == nil && res == Bool(left.(Date) >= right.(Date))
 //@ ensures illtyped: !(left is Integer && right is Integer) && !(left is Date && right is Date) ==> err != nil && res == nil
@@ -126,12 +136,14 @@ package datalog
 //@ func (And) Eval(left Term, right Term, _ *SymbolTable) (res Term, err error)
 //@ serves C06 C10
 //@ modifies nothing
+//@ ensures wf: err == nil ==> termWF(res)
 //@ ensures strict: left is Bool && right is Bool ==> err == nil && res == Bool(left.(Bool) && right.(Bool))
 //@ ensures illtyped: !(left is Bool && right is Bool) ==> err != nil && res == nil
 
 //@ func (Or) Eval(left Term, right Term, _ *SymbolTable) (res Term, err error)
 //@ serves C06 C10
 //@ modifies nothing
+//@ ensures wf: err == nil ==> termWF(res)
 //@ ensures strict: left is Bool && right is Bool ==> err == nil && res == Bool(left.(Bool) || right.(Bool))
 //@ ensures illtyped: !(left is Bool && right is Bool) ==> err != nil && res == nil
 
@@ -139,14 +151,17 @@ package datalog
 //@ serves C06 C10
 //@ requires symbols != nil
 //@ modifies *symbols, spare(*symbols)
+//@ ensures wf: err == nil ==> termWF(res)
 //@ ensures exact: left is Integer && right is Integer && in64(left.(Integer) + right.(Integer)) ==> err == nil && res == Integer(left.(Integer) + right.(Integer))
 //@ ensures no_wrap: left is Integer && right is Integer && !in64(left.(Integer) + right.(Integer)) ==> err != nil && res == nil
 //@ ensures concat: left is String && right is String && old(symValid(symbols, left.(String))) && old(symValid(symbols, right.(String))) ==> err == nil && res is String && symValid(symbols, res.(String)) && symStr(symbols, res.(String)) == old(symStr(symbols, left.(String))) + old(symStr(symbols, right.(String)))
 //@ ensures illtyped: !(left is Integer && right is Integer) && !(left is String && right is String) ==> err != nil && res == nil
+//@ ensures table: tableGrown(*symbols, old(*symbols)) && (forall j int :: 0 <= j && j < old(len(*symbols)) ==> (*symbols)[j] == old((*symbols)[j]))
 
 //@ func (Sub) Eval(left Term, right Term, _ *SymbolTable) (res Term, err error)
 //@ serves C06 C10
 //@ modifies nothing
+//@ ensures wf: err == nil ==> termWF(res)
 //@ ensures exact: left is Integer && right is Integer && in64(left.(Integer) - right.(Integer)) ==> err == nil && res == Integer(left.(Integer) - right.(Integer))
 //@ ensures no_wrap: left is Integer && right is Integer && !in64(left.(Integer) - right.(Integer)) ==> err != nil && res == nil
 //@ ensures illtyped: !(left is Integer && right is Integer) ==> err != nil && res == nil
@@ -154,6 +169,7 @@ package datalog
 //@ func (Mul) Eval(left Term, right Term, _ *SymbolTable) (res Term, err error)
 //@ serves C06 C10
 //@ modifies nothing
+//@ ensures wf: err == nil ==> termWF(res)
 //@ ensures exact: left is Integer && right is Integer && in64(left.(Integer) * right.(Integer)) ==> err == nil && res == Integer(left.(Integer) * right.(Integer))
 //@ ensures no_wrap: left is Integer && right is Integer && !in64(left.(Integer) * right.(Integer)) ==> err != nil && res == nil
 //@ ensures illtyped: !(left is Integer && right is Integer) ==> err != nil && res == nil
@@ -161,6 +177,7 @@ package datalog
 //@ func (Div) Eval(left Term, right Term, _ *SymbolTable) (res Term, err error)
 //@ serves C06 C10
 //@ modifies nothing
+//@ ensures wf: err == nil ==> termWF(res)
 //@ ensures div_by_zero: left is Integer && right is Integer && right.(Integer) == 0 ==> err == ErrExprDivByZero && res == nil
 //@ ensures exact: left is Integer && right is Integer && right.(Integer) != 0 && in64(left.(Integer) / right.(Integer)) ==> err == nil && res == Integer(left.(Integer) / right.(Integer))
 //@ ensures no_wrap: left is Integer && right is Integer && right.(Integer) != 0 && !in64(left.(Integer) / right.(Integer)) ==> err != nil && res == nil
@@ -170,6 +187,7 @@ package datalog
 //@ serves C06 C10
 //@ requires symbols != nil
 //@ modifies nothing
+//@ ensures wf: err == nil ==> termWF(res)
 //@ ensures strings: left is String && right is String && symValid(symbols, left.(String)) && symValid(symbols, right.(String)) ==> err == nil && res == Bool(strHasPrefix(symStr(symbols, left.(String)), symStr(symbols, right.(String))))
 //@ ensures illtyped: !(left is String && right is String) ==> err != nil && res == nil
 
@@ -177,6 +195,7 @@ package datalog
 //@ serves C06 C10
 //@ requires symbols != nil
 //@ modifies nothing
+//@ ensures wf: err == nil ==> termWF(res)
 //@ ensures strings: left is String && right is String && symValid(symbols, left.(String)) && symValid(symbols, right.(String)) ==> err == nil && res == Bool(strHasSuffix(symStr(symbols, left.(String)), symStr(symbols, right.(String))))
 //@ ensures illtyped: !(left is String && right is String) ==> err != nil && res == nil
 
@@ -227,6 +246,7 @@ package datalog
 //@ serves C06 C10
 //@ requires termWF(left) && termWF(right)
 //@ modifies nothing
+//@ ensures wf: err == nil ==> termWF(res)
 //@ ensures scalars: sameKind(left, right) && !(left is Set) && !(left is Variable) ==> err == nil && res == Bool(scalarEq(left, right))
 //@ ensures sets_equal: left is Set && right is Set && len(left.(Set)) == len(right.(Set)) && subsetOf(left.(Set), right.(Set)) ==> err == nil && res == Bool(true)
 //@ ensures sets_differ: left is Set && right is Set && !(len(left.(Set)) == len(right.(Set)) && subsetOf(left.(Set), right.(Set))) ==> err == nil && res == Bool(false)
@@ -236,6 +256,7 @@ package datalog
 //@ serves C06 C10
 //@ requires termWF(left) && termWF(right) && symbols != nil
 //@ modifies nothing
+//@ ensures wf: err == nil ==> termWF(res)
 //@ loop 0 invariant forall a int :: 0 <= a && a < #i ==> memberOf(rhsset[a], set)
 //@ loop 1 invariant rhsinlhs == (exists b int :: 0 <= b && b < #i && scalarEq(set[b], rhselt))
 //@ loop 2 invariant forall b int :: 0 <= b && b < #i ==> !scalarEq(set[b], right)
@@ -250,6 +271,7 @@ package datalog
 //@ serves C06 C10
 //@ requires termWF(left) && termWF(right)
 //@ modifies nothing
+//@ ensures wf: err == nil ==> termWF(res)
 //@ ensures sets: left is Set && right is Set ==> err == nil && res is Set && setWF(res.(Set)) && (forall k int :: 0 <= k && k < len(res.(Set)) ==> memberOf(res.(Set)[k], left.(Set)) && memberOf(res.(Set)[k], right.(Set)))
 //@ ensures illtyped: !(left is Set && right is Set) ==> err != nil && res == nil
 
@@ -257,6 +279,7 @@ package datalog
 //@ serves C06 C10
 //@ requires termWF(left) && termWF(right)
 //@ modifies nothing
+//@ ensures wf: err == nil ==> termWF(res)
 //@ ensures sets: left is Set && right is Set ==> err == nil && res is Set && setWF(res.(Set)) && (forall k int :: 0 <= k && k < len(res.(Set)) ==> memberOf(res.(Set)[k], left.(Set)) || memberOf(res.(Set)[k], right.(Set))) && (forall j int :: 0 <= j && j < len(left.(Set)) ==> res.(Set)[j] == left.(Set)[j])
 //@ ensures illtyped: !(left is Set && right is Set) ==> err != nil && res == nil
 
@@ -264,6 +287,46 @@ package datalog
 //@ serves C06 C10
 //@ requires symbols != nil
 //@ modifies nothing
+//@ ensures wf: err == nil ==> termWF(res)
 //@ ensures matches: left is String && right is String && symValid(symbols, left.(String)) && symValid(symbols, right.(String)) && reCompiles(symStr(symbols, right.(String))) ==> err == nil && res == Bool(reMatches(symStr(symbols, right.(String)), bytes_of_str(symStr(symbols, left.(String)))))
 //@ ensures bad_regex: left is String && right is String && symValid(symbols, right.(String)) && !reCompiles(symStr(symbols, right.(String))) ==> err != nil && res == nil
 //@ ensures illtyped: !(left is String && right is String) ==> err != nil && res == nil
+
+// ---------------------------------------------------------------------------
+// interface-method contracts (used at invoke sites; every implementing method
+// is verified against them)
+
+//@ iface (f UnaryOpFunc) Eval(value Term, symbols *SymbolTable) (res Term, err error)
+//@ serves C06 C10
+//@ requires termWF(value) && symbols != nil
+//@ modifies nothing
+//@ ensures wf: err == nil ==> termWF(res)
+//@ ensures no_result_on_error: err != nil ==> res == nil
+
+//@ iface (f BinaryOpFunc) Eval(left Term, right Term, symbols *SymbolTable) (res Term, err error)
+//@ serves C06 C10
+//@ requires termWF(left) && termWF(right) && symbols != nil
+//@ modifies *symbols, spare(*symbols)
+//@ ensures wf: err == nil ==> termWF(res)
+//@ ensures no_result_on_error: err != nil ==> res == nil
+//@ ensures table: tableGrown(*symbols, old(*symbols)) && (forall j int :: 0 <= j && j < old(len(*symbols)) ==> (*symbols)[j] == old((*symbols)[j]))
+
+// ---------------------------------------------------------------------------
+// expression evaluation
+
+//@ func (e *Expression) Evaluate(values map[Variable]*Term, symbols *SymbolTable) (res Term, err error)
+//@ serves C06 C10
+//@ requires e != nil && symbols != nil && exprWF(*e) && bindingsWF(values)
+//@ modifies *symbols, spare(*symbols)
+//@ loop 0 invariant ptr: s != nil && fresh(s)
+//@ loop 0 invariant bound: len(*s) <= 1000
+//@ loop 0 invariant elems: forall j int :: 0 <= j && j < len(*s) ==> termWF((*s)[j])
+//@ loop 0 invariant owns: fresh(arr(*s))
+//@ loop 0 invariant tableGrown(*symbols, old(*symbols))
+//@ loop 0 invariant #i == 0 ==> len(*s) == 0
+//@ loop 0 invariant #i >= 1 ==> (*e)[0] is Value
+//@ loop 0 invariant #i == 1 && (*e)[0] is Value && !((*e)[0].(Value).ID is Variable) ==> len(*s) == 1 && (*s)[0] == (*e)[0].(Value).ID
+//@ ensures wf: err == nil ==> termWF(res)
+//@ ensures empty: len(*e) == 0 ==> err != nil && res == nil
+//@ ensures single_value: len(*e) == 1 && (*e)[0] is Value && !((*e)[0].(Value).ID is Variable) ==> err == nil && res == (*e)[0].(Value).ID
+//@ ensures single_operator: len(*e) == 1 && !((*e)[0] is Value) ==> err != nil && res == nil
